@@ -26,13 +26,19 @@ FUNCTIONS = c05.FUNCTIONS + ['CellInlining.find_occurrences / compute_inlining_s
 
 def make(task):
     deck_task, flags = task
-    deck, pre = c05.make(deck_task)
+    if deck_task[0] in ('dup-union', 'special'):
+        from . import c01
+        deck, pre = c01.make(deck_task)
+    else:
+        deck, pre = c05.make(deck_task)
     return deck, pre, flags
 
 
 def worker(task):
     if task[0] == 'EQ':
         return eq_unit(task[1])
+    if task[0] == 'DEDUP':
+        return dedup_unit(task[1])
     deck, pre, fl = make(task)
     flags = {'skip_deduplication': fl[0], 'always_inline_filling': fl[1], 'always_inline_filled': fl[2],
              'max_inline_score': symx.var('mis')}
@@ -40,6 +46,58 @@ def worker(task):
 
 
 T4_TYPES = {'TORUSZ': 6, 'TORUSX': 6, 'PLANEX': 1, 'PLANEY': 1, 'PLANEZ': 1, 'PLANE': 4, 'SPHERE': 4, 'CYLX': 3, 'CYLY': 3, 'CYLZ': 3, 'CYL': 7, 'QUAD': 10}
+
+
+DEDUP_SNIPPET = """from t4_geom_convert.Kernel.Surface.SurfaceT4 import SurfaceT4
+from t4_geom_convert.Kernel.Surface.ESurfaceTypeT4 import ESurfaceTypeT4 as T4S
+from t4_geom_convert.Kernel.Surface.Duplicates import remove_duplicate_surfaces
+spec = %r
+dic = {k: SurfaceT4(getattr(T4S, t), tuple(p)) for k, (t, p) in spec.items()}
+new, ren = remove_duplicate_surfaces(dic)
+for a in spec:
+    for b in spec:
+        same = spec[a] == spec[b]
+        assert (ren[a] == ren[b]) == same, 'surfaces %%d %%r and %%d %%r: merged %%s, equal %%s' %% (a, spec[a], b, spec[b], ren[a] == ren[b], same)
+    assert ren[a] <= a and ren[a] in new, 'surface %%d is renumbered to %%r' %% (a, ren[a])
+"""
+
+
+def dedup_unit(sd):
+    """remove_duplicate_surfaces on tables of surfaces with concrete parameters (real floats, the real __hash__:
+    the symbolic runs replace it by a type-only hash): two surfaces are merged iff type and parameters are equal.
+    Bounded enumeration, not a solver verdict; the value pool holds numbers whose Python hashes collide (-1, -2)."""
+    from ..common import unit_violation
+    stubs.uninstall()
+    stubs.quiet_progress()
+    from t4_geom_convert.Kernel.Surface.SurfaceT4 import SurfaceT4
+    from t4_geom_convert.Kernel.Surface.ESurfaceTypeT4 import ESurfaceTypeT4 as T4S
+    from t4_geom_convert.Kernel.Surface.Duplicates import remove_duplicate_surfaces
+    rnd = random.Random(sd)
+    res = {'obligations': 0, 'discharged': 0, 'paths': 0, 'violations': [], 'inconclusive': [], 'samples': [],
+           'distinct': ['dedup%d' % sd], 'harness_errors': [], 'evaluations': 0}
+    pool = [-2.0, -1.0, 0.0, 1.0, 2.0, 0.5]
+    for it in range(200):
+        spec = {}
+        for k in rnd.sample(range(1, 30), rnd.randint(2, 6)):
+            t = rnd.choice(['PLANEX', 'PLANEX', 'PLANEY', 'SPHERE', 'CYLZ'])
+            spec[k] = (t, tuple(rnd.choice(pool) for _ in range(T4_TYPES[t])))
+        res['obligations'] += 1
+        res['evaluations'] += 1
+        dic = {k: SurfaceT4(getattr(T4S, t), tuple(p)) for k, (t, p) in spec.items()}
+        try:
+            new, ren = remove_duplicate_surfaces(dic)
+            ok = all((ren[a] == ren[b]) == (spec[a] == spec[b]) for a in spec for b in spec) and all(ren[a] <= a and ren[a] in new for a in spec)
+        except Exception as ex:             # noqa
+            ok = False
+        if ok:
+            res['discharged'] += 1
+            continue
+        if len(res['violations']) < 2:
+            v = unit_violation(PROP, {'kind': 'dedup-table'}, 'remove_duplicate_surfaces merges surfaces that differ (or keeps equal ones apart) in %r' % (spec,),
+                               DEDUP_SNIPPET % (spec,))
+            (res['violations'] if v else res['harness_errors']).append(v or 'dedup table: not reproduced')
+    res['paths'] = 200
+    return res
 
 
 def eq_unit(pair):
@@ -150,12 +208,18 @@ def tasks_for(tier):
     for dt in decks:
         for fl in combos:
             out.append((dt, fl))
+    # one surface on two cards, used with opposite senses inside unions: with and without de-duplication
+    for i in range(6 if tier == 'quick' else 80):
+        for fl in ((False, False, False), (True, False, False)):
+            out.append((('dup-union', base + 400 + i), fl))
     types = list(T4_TYPES)
     for ta in types:
         out.append(('EQ', (ta, ta)))
     out.append(('EQ', ('TORUSZ+tr', 'TORUSZ+tr')))
     out.append(('EQ', ('PLANEX', 'PLANEY')))
     out.append(('EQ', ('CYLX', 'CYLY')))
+    for i in range(2 if tier == 'quick' else 40):
+        out.append(('DEDUP', base + i))
     return out
 
 
